@@ -36,7 +36,7 @@ EXPORTERS = ["json", "json-indent", "json-sort", "xml", "xml-ft", "provn", "get_
 TEXT = {"json", "json-indent", "json-sort", "xml", "xml-ft", "provn", "get_provn"}
 
 
-def run_export(g, doc, name, dot_opts=None):
+def run_export(g, doc, name, dot_opts=None, other=None):
     """returns text (for text exporters) or None; exceptions of the exporter itself are returned as ('exc', type)"""
     try:
         if name == "json":
@@ -66,6 +66,12 @@ def run_export(g, doc, name, dot_opts=None):
         if name == "eq":
             doc == doc
             doc != ProvDocument()
+            if other is not None:
+                # comparison reads both operands: the document is looked at from either side of ==, != and in a list search
+                doc == other
+                other == doc
+                other != doc
+                [other].index(doc) if other == doc else None
             return None
         if name == "hash":
             for r in doc.get_records():
@@ -104,10 +110,12 @@ def make_case(ctx, g):
     # half of the cases are biased towards repeated identifiers with overlapping attribute names: that is where
     # unified() -- also called by prov_to_graph and prov_to_dot -- has work to do
     if g.chance(0.5):
-        b = DocBuilder(g, w, repeat_id=0.6, malformed=0.0, anon=0.3, multi=0.3, foreign=0.05)
+        b = DocBuilder(g, w, repeat_id=0.6, malformed=0.0, anon=0.3, multi=0.3, foreign=0.05, redefault=0.25, defaults=0.5)
     else:
         b = DocBuilder(g, w, repeat_id=0.25, malformed=0.0)
     d, scopes = b.random_document(n_records=g.rng.randint(1, 7))
+    if g.chance(0.15) and b.cross_kind_cluster(g.choice(scopes)):
+        ctx.count("one-identifier-two-merged-kinds")
     doc = w.conts[d]
     twin_world = replay_ops(w.ops)
     twin = twin_world.conts[d]
@@ -120,7 +128,7 @@ def make_case(ctx, g):
             opts = dict(show_nary=g.chance(0.5), use_labels=g.chance(0.5), show_element_attributes=g.chance(0.5),
                         show_relation_attributes=g.chance(0.5), direction=g.choice(["BT", "TB", "LR", "RL", "XX"]))
         before = proto.canon_cont(doc)
-        out1 = run_export(g, doc, name, opts)
+        out1 = run_export(g, doc, name, opts, other=(twin if twin_world is not None else None))
         after = proto.canon_cont(doc)
         used.add(name)
         ctx.count("export:" + name)
